@@ -37,7 +37,8 @@ ReadsOK(r, S, XP) ==
           /\ x.exists = TRUE
           /\ x.child_ids = KidsOf(S, x.id)
           /\ ToSet(x.descendant_ids) = DescOf(S.P, x.id) /\ Len(x.descendant_ids) = Cardinality(DescOf(S.P, x.id))
-          /\ x.track_ids = MemOf(S, x.id)
+          /\ x.track_ids = [k \in DOMAIN MemOf(S, x.id) |-> MemOf(S, x.id)[k] % 100]   \* (track ids >= 100: the same id in another database)
+          /\ x.ents = MemOf(S, x.id)                                                  \* get_for_list: track id and database of every entity
           /\ x.entity_ids = EntsOf(S, x.id)
           /\ x.found = x.id                                   \* find_id(parent, title) finds the row (names are unique per parent)
     /\ {x.id : x \in ToSet(o.lists)} = L
@@ -53,7 +54,7 @@ ReadsOK(r, S, XP) ==
           /\ x.par = S.P[x.id].p
           /\ x.ch = KidsOf(S, x.id)
           /\ ToSet(x.de) = DescOf(S.P, x.id) /\ Len(x.de) = Cardinality(DescOf(S.P, x.id))
-          /\ x.tr = MemOf(S, x.id)
+          /\ x.tr = [k \in DOMAIN MemOf(S, x.id) |-> MemOf(S, x.id)[k] % 100]
     /\ o.hl.tracks = <<>>                                     \* (this driver creates no Track row)
 
 \* C16 at table level: the read functions issued no write statement, changed no row, left the digest of all tables
